@@ -95,15 +95,31 @@ def _mk_state(P, choose, value):
             local[i] = value(f'local{i}')
         if st in (4, 5):
             removed.add(i)
-    shell = FakeShell({key_hash(U[i]): {'int': _dec(v)} for i, v in chain.items()})
+    shell = FakeShell({key_hash(U[i]): _lit(P, v) for i, v in chain.items()})
     ctx = ExecutionContext(shell=shell)
-    bty = t.BigMapType.create_type(args=[kty, t.IntType])
-    bm = bty(items=[(U[i], t.IntType(local[i])) for i in sorted(local)], ptr=None if fresh else PTR, removed_keys=[U[i] for i in sorted(removed)])
+    vty = _vty(P)
+    bty = t.BigMapType.create_type(args=[kty, vty])
+    bm = bty(items=[(U[i], vty(local[i])) for i in sorted(local)], ptr=None if fresh else PTR, removed_keys=[U[i] for i in sorted(removed)])
     bm.attach_context(ctx)
     model = {}
     for i in range(n):
         model[i] = local[i] if i in local else (None if i in removed else chain.get(i))
     return ctx, bm, model, chain, U
+
+
+def _vty(P):
+    from pytezos.michelson import types as t
+
+    return {'int': t.IntType, 'string': t.StringType, 'bool': t.BoolType}[P.get('val', 'int')]
+
+
+def _lit(P, v):
+    k = P.get('val', 'int')
+    if k == 'int':
+        return {'int': _dec(v)}
+    if k == 'string':
+        return {'string': v}
+    return {'prim': 'True' if bool(v) else 'False'}
 
 
 def _dec(v):
@@ -136,7 +152,7 @@ def _check_all(P, choose, value, check, fail):
     else:
         some = choose('some', 0, 1)
         v = value('newval') if some else None
-        arg = mich.some(t.IntType(v)) if some else mich.none(t.IntType)
+        arg = mich.some(_vty(P)(v)) if some else mich.none(_vty(P))
         out = mich.run_instr(mich.I({'prim': op}), [U[k], arg, bm], ctx)
         if op == 'GET_AND_UPDATE':
             check(_opt_eq(out[0], model[k]), 'GET_AND_UPDATE returns the previous binding')
@@ -195,7 +211,7 @@ def _check_all(P, choose, value, check, fail):
             if kh not in final:
                 fail(f'after applying the diff key {i} is missing')
             tag, val = final[kh]
-            got = val if tag == 'v' else _int_of(val)
+            got = val if tag == 'v' else _val_of(P, val)
             check(got == model[i], f'after applying the diff key {i} has the model value')
     if res.ptr is None:
         fail('big_map id lost after aggregate_lazy_diff')
@@ -204,6 +220,15 @@ def _check_all(P, choose, value, check, fail):
 def _abs_key(U, expr):
     kty = type(U[0])
     return mich.abstract(kty.from_micheline_value(expr))
+
+
+def _val_of(P, m):
+    k = P.get('val', 'int')
+    if k == 'int':
+        return _int_of(m)
+    if k == 'string':
+        return m['string']
+    return m['prim'] == 'True'
 
 
 def _int_of(m):
@@ -222,7 +247,12 @@ def sym_step(P, ex):
         return mbv._choose(ex, name, lo, hi)
 
     def value(name):
-        return ex.int(name)
+        k = P.get('val', 'int')
+        if k == 'int':
+            return ex.int(name)
+        if k == 'bool':
+            return ex.bool(name)
+        return mbv.sym_value(ex, mich.T('string'), name, 1).value
 
     def fail(msg):
         ex.fail_here(msg)
@@ -249,7 +279,12 @@ def conc_step(P, w):
         return int(w.get(name, lo))
 
     def value(name):
-        return int(w.get(name, 0))
+        k = P.get('val', 'int')
+        if k == 'int':
+            return int(w.get(name, 0))
+        if k == 'bool':
+            return bool(w.get(name, False))
+        return bytes(w.get(name, b'')).decode() if int(w.get(name + '#len', 0)) else ''
 
     class Stop(Exception):
         pass
@@ -273,14 +308,14 @@ def conc_step(P, w):
     # 2. reachability: build the same state by instructions and compare the local representation
     try:
         ctx0, bm0, model, chain, U = _mk_state(P, choose, value)
-        shell = FakeShell({key_hash(U[i]): {'int': str(v)} for i, v in chain.items()})
+        shell = FakeShell({key_hash(U[i]): _lit(P, v) for i, v in chain.items()})
         ctx = ExecutionContext(shell=shell)
-        bty = t.BigMapType.create_type(args=[type(U[0]), t.IntType])
+        bty = t.BigMapType.create_type(args=[type(U[0]), _vty(P)])
         bm = bty(items=[], ptr=None if P['fresh'] else PTR)
         bm.attach_context(ctx)
         for r in bm0.removed_keys:
-            bm = mich.run_instr(mich.I({'prim': 'UPDATE'}), [r, mich.some(t.IntType(0)), bm], ctx)[0]
-            bm = mich.run_instr(mich.I({'prim': 'UPDATE'}), [r, mich.none(t.IntType), bm], ctx)[0]
+            bm = mich.run_instr(mich.I({'prim': 'UPDATE'}), [r, mich.some(_vty(P).dummy(None) if P.get('val', 'int') != 'bool' else _vty(P)(False)), bm], ctx)[0]
+            bm = mich.run_instr(mich.I({'prim': 'UPDATE'}), [r, mich.none(_vty(P)), bm], ctx)[0]
         for kk, vv in bm0.items:
             bm = mich.run_instr(mich.I({'prim': 'UPDATE'}), [kk, mich.some(vv), bm], ctx)[0]
         for i in range(len(U)):
@@ -302,4 +337,8 @@ def obligations(tier):
                 P = {'op': op, 'fresh': fresh, 'nkeys': 3 if (q or keys == 'pair') else 4, 'keys': keys}
                 obs.append(Ob(f'{"fresh" if fresh else "existing"}/{op}/{keys}', 'bvx', sym_step, conc_step, P, timeout=t,
                               bounds=f'every state over {P["nkeys"]} keys (6 situations per key), solver-chosen key, symbolic values; then the lazy diff', targets=TARGETS))
+        for val in ('string', 'bool'):
+            P = {'op': 'UPDATE', 'fresh': fresh, 'nkeys': 2, 'keys': 'nat', 'val': val}
+            obs.append(Ob(f'{"fresh" if fresh else "existing"}/UPDATE/nat->{val}', 'bvx', sym_step, conc_step, P, timeout=t,
+                          bounds=f'2 keys, {val} values (including values that are falsy in Python), then the lazy diff', targets=TARGETS))
     return obs
